@@ -905,6 +905,66 @@ func refusedEncode(c *ev.Case, x *types.TxData) {
 	}
 }
 
+// held: values a node decoded earlier and still holds (header cache, sync batches, pool) while it
+// goes on encoding and decoding other values.  A decoded value is a value: it must not change when
+// the codec works on something else (aliased scratch buffers).
+var held struct {
+	hdr, hdrSnap *types.BlockHeader
+	tx, txSnap   *types.TxData
+	blk, blkSnap *types.Block
+}
+
+func checkHeld(c *ev.Case) {
+	if held.hdr != nil {
+		c.Count("held_values_rechecked", 1)
+		if d := txgen.DiffHeader(held.hdrSnap, held.hdr); d != nil {
+			c.Violation("held:decoded-header-changed:"+symptom(d), "a header decoded earlier changed while other values were encoded / decoded", map[string]interface{}{"diff": d.String()})
+		}
+	}
+	if held.tx != nil {
+		c.Count("held_values_rechecked", 1)
+		if d := txgen.DiffTxData(held.txSnap, held.tx); d != nil {
+			c.Violation("held:decoded-tx-changed:"+symptom(d), "a transaction decoded earlier changed while other values were encoded / decoded", map[string]interface{}{"diff": d.String()})
+		}
+	}
+	if held.blk != nil {
+		c.Count("held_values_rechecked", 1)
+		if d := txgen.DiffBlock(held.blkSnap, held.blk); d != nil {
+			c.Violation("held:decoded-block-changed:"+symptom(d), "a block decoded earlier changed while other values were encoded / decoded", map[string]interface{}{"diff": d.String()})
+		}
+	}
+}
+
+func holdHeader(x *types.BlockHeader) {
+	held.hdr, held.hdrSnap = nil, nil
+	if b, err := x.MarshalText(); err == nil {
+		h := &types.BlockHeader{}
+		if h.UnmarshalText(b) == nil {
+			held.hdr, held.hdrSnap = h, txgen.CloneHeader(h)
+		}
+	}
+}
+
+func holdTx(x *types.TxData) {
+	held.tx, held.txSnap = nil, nil
+	if b, err := x.MarshalText(); err == nil {
+		t := &types.TxData{}
+		if t.UnmarshalText(b) == nil {
+			held.tx, held.txSnap = t, txgen.CloneTxData(t)
+		}
+	}
+}
+
+func holdBlock(x *types.Block) {
+	held.blk, held.blkSnap = nil, nil
+	if b, err := x.MarshalText(); err == nil {
+		k := &types.Block{}
+		if k.UnmarshalText(b) == nil {
+			held.blk, held.blkSnap = k, txgen.CloneBlock(k)
+		}
+	}
+}
+
 func TestC04(t *testing.T) {
 	r := ev.Start(t, "C04")
 	defer r.Finish()
@@ -930,6 +990,10 @@ func TestC04(t *testing.T) {
 			refusedEncode(c, x)
 		}
 		exact := checkTx(c, x)
+		checkHeld(c)
+		if c.Index%3 == 0 {
+			holdTx(x)
+		}
 		c.Count("transactions", 1)
 		if exact {
 			c.Count("transactions_exact", 1)
@@ -944,6 +1008,10 @@ func TestC04(t *testing.T) {
 	r.Cases("header", r.N(4000, 200000), func(c *ev.Case) {
 		x := txgen.BlockHeader(c.Rand)
 		exact := checkHeader(c, x)
+		checkHeld(c)
+		if c.Index%3 == 0 {
+			holdHeader(x)
+		}
 		c.Count("headers", 1)
 		c.Count("suplinks", int64(len(x.SupLinks)))
 		if exact {
@@ -962,6 +1030,10 @@ func TestC04(t *testing.T) {
 			refusedEncode(c, &x.Transactions[0].TxData)
 		}
 		exact := checkBlock(c, x)
+		checkHeld(c)
+		if c.Index%3 == 0 {
+			holdBlock(x)
+		}
 		c.Count("blocks", 1)
 		c.Count("block_transactions", int64(len(x.Transactions)))
 		if exact {
@@ -996,6 +1068,7 @@ func TestC04(t *testing.T) {
 		r.Floor(f, 200)
 	}
 	r.Floor("refused_encodings", 500)
+	r.Floor("held_values_rechecked", 5000)
 	r.Floor("transactions_exact", 3000)
 	r.Floor("headers_exact", 3000)
 	r.Floor("blocks_exact", 500)
